@@ -4,10 +4,11 @@ CONSTANTS
   Jobs = {1, 2, 3, 4, 5, 6, 7, 8}
   MaxFail = 1000000
   AllowClose = TRUE
+  AtomicWait = TRUE
 VIEW TraceView
 SYMMETRY Perms
 CONSTRAINT HighWater
-INVARIANTS TypeOK NothingLost OneCopy ClosedQuiet
-PROPERTIES NoRerun FailedRequeued NoDequeueAfterClose SubmitAnswer
+INVARIANTS TypeOK NothingLost OneCopy ClosedQuiet SomeoneWillLook
+PROPERTIES NoRerun FailedRequeued NoDequeueAfterClose QueuedAtCloseNeverStarts SubmitAnswer
 POSTCONDITION TraceAccepted
 CHECK_DEADLOCK FALSE
